@@ -58,10 +58,19 @@ class Interp:
         pgn, src, dest = STREAMS[stream]
         c = self.cur.get(stream)
         i = wire.ident(pgn, src, dest, c.get("prio", 3) if c else 3)
+        # binary packets are handed over in a buffer the caller owns and overwrites as soon as the call has returned (recv_into style)
         if self.fmt == "ebyte":
-            return self.dec.decode_tcp(wire.ebyte(i, data))
+            buf = bytearray(wire.ebyte(i, data))
+            try:
+                return self.dec.decode_tcp(buf)
+            finally:
+                buf[:] = b"\xee" * len(buf)
         if self.fmt == "usb":
-            return self.dec.decode_usb(wire.usb(i, data))
+            buf = bytearray(wire.usb(i, data))
+            try:
+                return self.dec.decode_usb(buf)
+            finally:
+                buf[:] = b"\xee" * len(buf)
         return self.dec.decode_yacht_devices_string(wire.yd(i, data))
 
     def step(self, op):
